@@ -12,6 +12,7 @@
    All theorems hold for any number of rows, any row lengths (zero included), any element type. *)
 From Coq Require Import List ZArith.
 From EV Require Import PySlice Ragged RaggedProofs RaggedWhere.
+From EV Require Import RaBase RaGen RaggedGen RaGenProofs RaggedLegacy.
 Import ListNotations.
 
 (* single row a[r] *)
@@ -180,3 +181,130 @@ Example c05_example :
   /\ get_c s (Mask [[true; false; true]; [false; false]; [false; true; false; true]]) = Flat [0; 2; 6; 8]%Z.
 Proof. vm_compute. repeat split; reflexivity. Qed.
 Print Assumptions c05_example.
+
+(* ================================================================================================
+   Round 2 -- tie to the source.  Gen/RaGen.v is regenerated from the CURRENT enspara/ra/ra.py by
+   translator/tr_ragged.py at every check (scalar tests/expressions translated, NumPy statement shapes
+   plugged into the fixed skeletons of Base/RaBase.v).  The theorems below state that every regenerated
+   definition equals the hand-written one of Model/Ragged.v on its domain, and that the read assembled from
+   the regenerated definitions ([get_g], Model/RaggedGen.v) is the list-of-rows read.  Changing `<=` to `<`
+   in the bound test, an off-by-one in starts, a wrong wrap ... in the source breaks one of these proofs.
+   Python integers are Z on the generated side (lengths, starts, flat offsets). *)
+
+(* _slice_to_list(sl, length=n) -- the only way the read path calls it -- is range( *sl.indices(n));
+   a zero step raises *)
+Theorem c05_gen_slice_to_list : forall (sl : pslice) (n : nat),
+  gen_slice_to_list sl (py_int (Z.of_nat n)) = if sl_ok sl then PyOk (sl_indices n sl) else PyRaise.
+Proof. exact gen_slice_to_list_spec. Qed.
+Print Assumptions c05_gen_slice_to_list.
+
+(* _slice_to_list without a length (legacy branch, unused by reads): range(start or 0, stop, step or 1);
+   a negative bound, a missing stop or a zero step raises *)
+Theorem c05_gen_slice_to_list_nolength : forall s e k : option Z,
+  gen_slice_to_list (s, e, k) py_none =
+  match e with
+  | None => PyRaise
+  | Some e' =>
+    if (match s with Some x => x <? 0 | None => false end)%Z then PyRaise
+    else if (e' <? 0)%Z then PyRaise
+    else if (step_of k =? 0)%Z then PyRaise
+    else PyOk (zrange (match s with Some x => x | None => 0%Z end) e' (step_of k))
+  end.
+Proof. exact gen_slice_to_list_nolength. Qed.
+Print Assumptions c05_gen_slice_to_list_nolength.
+
+(* starts = np.append([0], np.cumsum(lengths)[:-1]) is the model's prefix sums (at least one row) *)
+Theorem c05_gen_starts : forall ls : list nat,
+  ls <> [] -> gen_starts (map Z.of_nat ls) = map Z.of_nat (starts_of ls).
+Proof. exact gen_starts_spec. Qed.
+Print Assumptions c05_gen_starts.
+
+(* each translated scalar of _handle_negative_indices / _convert_from_2d / _convert_from_1d is the model's:
+   negative tests, wraps by the number of rows / the row length, `lengths[r] <= c`, `starts[r] + c`,
+   `starts <= ii`, `ii - starts[row]` *)
+Theorem c05_gen_scalar_tests : forall x y : Z,
+  gen_hn_row_neg x = (x <? 0)%Z /\ gen_hn_row_wrap x y = (x + y)%Z /\ gen_hn_row_bad x = (x <? 0)%Z /\
+  gen_hn_col_neg x = (x <? 0)%Z /\ gen_hn_col_wrap x y = (x + y)%Z /\ gen_hn_col_bad x = (x <? 0)%Z /\
+  gen_c2_oob x y = (x <=? y)%Z /\ gen_c2_flat x y = (x + y)%Z /\
+  gen_c1_test x y = (x <=? y)%Z /\ gen_c1_col x y = (x - y)%Z.
+Proof. exact gen_scalar_tests. Qed.
+Print Assumptions c05_gen_scalar_tests.
+
+(* _handle_negative_indices + bound test + offset of _convert_from_2d, per (row, col): the model's conv2d,
+   for every lengths vector (empty included) and every pair of integers; None = the read raises *)
+Theorem c05_gen_convert_from_2d : forall (ls : list nat) (r c : Z),
+  gen_conv2d (map Z.of_nat ls) (gen_starts (map Z.of_nat ls)) r c = option_map Z.of_nat (conv2d ls r c).
+Proof. exact gen_conv2d_spec. Qed.
+Print Assumptions c05_gen_convert_from_2d.
+
+(* _convert_from_1d per flat position: the model's conv1d *)
+Theorem c05_gen_convert_from_1d : forall (sts : list nat) (ii : nat),
+  gen_conv1d (map Z.of_nat sts) (Z.of_nat ii) = option_map zpair (conv1d sts ii).
+Proof. exact gen_conv1d_spec. Qed.
+Print Assumptions c05_gen_convert_from_1d.
+
+(* ra.where(mask) assembled from the generated starts and _convert_from_1d *)
+Theorem c05_gen_where : forall m : list (list bool), where_g m = option_map (map zpair) (where_c m).
+Proof. exact where_g_spec. Qed.
+Print Assumptions c05_gen_where.
+
+(* _get_iis_from_slices (shape pinned; slice.indices per selected row) *)
+Theorem c05_gen_iis_from_slices : forall (ls : list nat) (rows : list Z) (sl : pslice),
+  sl_ok sl = true -> gen_iis_from_slices (map Z.of_nat ls) rows sl = iis_from_slices ls rows sl.
+Proof. exact gen_iis_from_slices_spec. Qed.
+Print Assumptions c05_gen_iis_from_slices.
+
+(* a zero column step raises as soon as one row is selected *)
+Theorem c05_gen_zero_col_step_raises : forall (ls : list nat) r rows s e,
+  gen_iis_from_slices (map Z.of_nat ls) (r :: rows) (s, e, Some 0%Z) = None.
+Proof. exact gen_iis_from_slices_zero_step. Qed.
+Print Assumptions c05_gen_zero_col_step_raises.
+
+(* __getitem__ assembled from the regenerated definitions is the model's __getitem__ ... *)
+Theorem c05_gen_read_is_model : forall A (s : conc A) (i : idx),
+  col_step_ok i = true -> get_g s i = get_c s i.
+Proof. exact @get_g_eq. Qed.
+Print Assumptions c05_gen_read_is_model.
+
+(* ... hence, for every index form, the list-of-rows read (error <-> error) *)
+Theorem c05_gen_read_refines : forall A (s : conc A) (i : idx),
+  wf s -> col_step_ok i = true -> (forall m, i = Mask m -> forall row, In row m -> row <> []) ->
+  get_g s i = get_s (abs s) i.
+Proof. exact @get_g_refines. Qed.
+Print Assumptions c05_gen_read_refines.
+
+(* the error clause over the regenerated bound test: a column outside the row raises *)
+Theorem c05_gen_elem_outside_row_raises : forall A (s : conc A) r c,
+  (forall l, get_item (lens s) r = Some l -> (Z.of_nat l <= c \/ c < - Z.of_nat l)%Z) ->
+  get_g s (Elem r c) = Err.
+Proof. exact @gen_elem_oob_is_error. Qed.
+Print Assumptions c05_gen_elem_outside_row_raises.
+
+(* D3 as a refutation: with the column-slice arithmetic as it stood before fix 1d25777 (faithful copy in
+   Proof/RaggedLegacy.v; witness replayed on that revision of the code) the property is FALSE *)
+Theorem c05_legacy_negstart_refuted :
+  exists (s : conc Z) (rsl csl : pslice),
+    wf s /\ sl_ok rsl = true /\ sl_ok csl = true /\
+    old_get_sl2ss s rsl csl <> get_s (abs s) (Sl2SS rsl csl).
+Proof. exact old_negstart_refuted. Qed.
+Print Assumptions c05_legacy_negstart_refuted.
+
+Example c05_legacy_negstart_value :
+  old_get_sl2ss (mkRA [0; 1; 2; 3; 4; 5; 6; 7; 8]%Z [3; 2; 4]%nat) (None, None, None) (Some (-2)%Z, None, None)
+  = Val [[1; 2; 0; 1; 2]; [3; 4; 3; 4]; [7; 8; 5; 6; 7; 8]]%Z.
+Proof. vm_compute. reflexivity. Qed.
+Print Assumptions c05_legacy_negstart_value.
+
+(* Non-vacuity on the generated side: the D3 witness read through the regenerated definitions *)
+Example c05_gen_example :
+  let s := mkRA [0; 1; 2; 3; 4; 5; 6; 7; 8]%Z [3; 2; 4]%nat in
+  get_g s (Sl2SS (None, None, None) (Some (-2)%Z, None, None)) = Val [[1; 2]; [3; 4]; [7; 8]]%Z
+  /\ get_g s (Sl2SS (None, None, Some (-1)%Z) (Some 1%Z, None, Some (-1)%Z)) = Val [[6; 5]; [4; 3]; [1; 0]]%Z
+  /\ get_g s (Elem (-1) (-4)) = Flat [5%Z]
+  /\ get_g s (Elem 1 2) = Err
+  /\ get_g s (Pairs [0; -2; 2]%Z [-1; 1; 0]%Z) = Flat [2; 4; 5]%Z
+  /\ get_g s (Mask [[true; false; true]; [false; false]; [false; true; false; true]]) = Flat [0; 2; 6; 8]%Z
+  /\ gen_starts [3; 2; 4]%Z = [0; 3; 5]%Z
+  /\ gen_slice_to_list (Some (-2)%Z, None, Some (-1)%Z) (py_int 3) = PyOk [1; 0]%Z.
+Proof. vm_compute. repeat split; reflexivity. Qed.
+Print Assumptions c05_gen_example.
